@@ -1086,7 +1086,16 @@ where
                     })
                 });
                 if let Some(pragma) = pragma {
-                    self.pragma = Some(pragma.to_string());
+                    if is_valid_pragma(pragma) {
+                        self.pragma = Some(pragma.to_string());
+                    } else {
+                        HANDLER.with(|handler| {
+                            handler.span_err(
+                                span,
+                                "The name given by `@jsx` must be an identifier or a member path.",
+                            )
+                        });
+                    }
                 }
             });
         }
@@ -1168,6 +1177,17 @@ where
     C: Comments,
 {
     fn visit_mut_module(&mut self, module: &mut Module) {
+        if let Some(pragma) = &self.options.pragma {
+            if !is_valid_pragma(pragma) {
+                HANDLER.with(|handler| {
+                    handler.span_err(
+                        module.span,
+                        "The `pragma` option must be an identifier or a member path.",
+                    )
+                });
+                self.options.pragma = None;
+            }
+        }
         self.search_jsx_pragma(module.span);
         module
             .body
@@ -1536,6 +1556,11 @@ impl Visit for TypeDeclCollector<'_> {
             (*ts_type_alias_decl.type_ann).clone(),
         );
     }
+}
+
+/// `h`, `Vue.h`: every dot-separated part must be an identifier
+fn is_valid_pragma(pragma: &str) -> bool {
+    pragma.split('.').all(is_valid_prop_ident)
 }
 
 fn jsx_member_expr_to_expr(JSXMemberExpr { obj, prop, span }: &JSXMemberExpr) -> Expr {
